@@ -515,6 +515,8 @@ enum ExecMsg {
     Nop {},
     /// dispatches `Nop` to itself with reply_on = always; `reply` emits the items
     ReplyEmit { items: Items },
+    /// issues the queries (kind, payload) one after the other from inside `execute`, ignoring the answers
+    Ask { items: Items },
 }
 
 /// message of `instantiate` and `migrate`: the sub-messages to emit (`{}` = none)
@@ -546,8 +548,23 @@ fn emit<C: CustomMsg>(env: &Env, items: Items, custom: &dyn Fn(&[u8]) -> C) -> R
     Ok(r)
 }
 
-fn run_exec<C: CustomMsg>(env: Env, info: MessageInfo, msg: ExecMsg, custom: &dyn Fn(&[u8]) -> C) -> Result<Response<C>, AnyError> {
+fn run_exec<C: CustomMsg>(
+    env: Env,
+    info: MessageInfo,
+    msg: ExecMsg,
+    custom: &dyn Fn(&[u8]) -> C,
+    ask: &dyn Fn(&[u8]),
+) -> Result<Response<C>, AnyError> {
     match msg {
+        ExecMsg::Ask { items } => {
+            for (k, h) in items {
+                match mk_query(&k, h.as_slice(), env.contract.address.as_str()) {
+                    Some(q) => ask(&to_json_vec(&q).unwrap()),
+                    None => bail!("unknown kind"),
+                }
+            }
+            Ok(Response::new())
+        }
         ExecMsg::Sink { data } => {
             record("wasm", 0, "exec", info.sender.as_str(), hex(data.as_slice()));
             Ok(Response::new())
@@ -592,8 +609,10 @@ fn lifted_custom(_h: &[u8]) -> Empty {
     Empty {}
 }
 
-fn n_exec(_d: DepsMut<CQuery>, env: Env, info: MessageInfo, msg: ExecMsg) -> Result<Response<CMsg>, AnyError> {
-    run_exec(env, info, msg, &native_custom)
+fn n_exec(d: DepsMut<CQuery>, env: Env, info: MessageInfo, msg: ExecMsg) -> Result<Response<CMsg>, AnyError> {
+    run_exec(env, info, msg, &native_custom, &|b| {
+        let _ = d.querier.raw_query(b);
+    })
 }
 fn n_inst(_d: DepsMut<CQuery>, env: Env, _i: MessageInfo, msg: EmitMsg) -> Result<Response<CMsg>, AnyError> {
     run_inst(env, msg, &native_custom)
@@ -611,13 +630,16 @@ fn n_reply(_d: DepsMut<CQuery>, env: Env, msg: Reply) -> Result<Response<CMsg>, 
 fn n_migrate(_d: DepsMut<CQuery>, env: Env, msg: EmitMsg) -> Result<Response<CMsg>, AnyError> {
     emit(&env, msg.items, &native_custom)
 }
-fn l_exec(_d: DepsMut<Empty>, env: Env, info: MessageInfo, msg: ExecMsg) -> Result<Response<Empty>, AnyError> {
-    run_exec(env, info, msg, &lifted_custom)
+fn l_exec(d: DepsMut<Empty>, env: Env, info: MessageInfo, msg: ExecMsg) -> Result<Response<Empty>, AnyError> {
+    run_exec(env, info, msg, &lifted_custom, &|b| {
+        let _ = d.querier.raw_query(b);
+    })
 }
 fn l_inst(_d: DepsMut<Empty>, env: Env, _i: MessageInfo, msg: EmitMsg) -> Result<Response<Empty>, AnyError> {
     run_inst(env, msg, &lifted_custom)
 }
 fn l_query(_d: Deps<Empty>, _e: Env, msg: DataMsg) -> Result<Binary, AnyError> {
+    record("wasm", 0, "query", "-", hex(msg.data.as_slice()));
     Ok(msg.data)
 }
 fn l_sudo(_d: DepsMut<Empty>, env: Env, msg: SudoIn) -> Result<Response<Empty>, AnyError> {
@@ -823,7 +845,7 @@ fn run_op(st: &mut Option<Built>, t: &[&str]) -> String {
     if t[0] == "wrapper" {
         return wrapper_op(&t[1..]);
     }
-    let known = ["send-top", "send-sub", "send-sub-from", "query", "sudo", "records", "block", "storage-dump", "init-count", "api-prefix", "wasm-gen"];
+    let known = ["send-top", "send-sub", "send-sub-from", "query", "query-sub", "sudo", "records", "block", "storage-dump", "init-count", "api-prefix", "wasm-gen"];
     if !known.contains(&t[0]) {
         return "bad-op".into();
     }
@@ -866,6 +888,21 @@ fn run_op(st: &mut Option<Built>, t: &[&str]) -> String {
                 }
             };
             outcome(guarded(|| b.app.exec_multi(Addr::unchecked(sender), vec![CosmosMsg::Wasm(msg)])))
+        }
+        "query-sub" => {
+            // query-sub native|lifted (KIND H)+ : the contract issues the queries from inside one execute call
+            if t.len() < 2 || !(t[1] == "native" || t[1] == "lifted") {
+                return "bad-op".into();
+            }
+            let native = t[1] == "native";
+            let Some(items) = pairs(&t[2..]) else { return "bad-op".into() };
+            if items.iter().any(|(k, h)| mk_query(k, h, "x").is_none() || (!native && k == "custom")) {
+                return "bad-op".into();
+            }
+            let items: Items = items.into_iter().map(|(k, h)| (k, Binary::from(h))).collect();
+            let target = if native { b.native.clone() } else { b.lifted.clone() };
+            let msg = WasmMsg::Execute { contract_addr: target, msg: to_json_binary(&ExecMsg::Ask { items }).unwrap(), funds: vec![] };
+            outcome(guarded(|| b.app.exec_multi(Addr::unchecked("u1"), vec![CosmosMsg::Wasm(msg)])))
         }
         "query" => {
             if t.len() != 3 {
@@ -1184,7 +1221,26 @@ pub fn gen_route(rng: &mut Rng, thorough: bool) -> Vec<String> {
         for _ in 0..n {
             match rng.below(10) {
                 0..=5 => out.push(send_op(rng)),
-                6 | 7 => out.push(format!("query {} {}", rng.pick(&QUERY_KINDS), rng.pick(&PAYLOADS))),
+                6 => out.push(format!("query {} {}", rng.pick(&QUERY_KINDS), rng.pick(&PAYLOADS))),
+                7 => {
+                    // queries issued by a contract inside one call, with repeats of the very same request
+                    let native = rng.chance(1, 2);
+                    let mut items: Vec<String> = vec![];
+                    for _ in 0..rng.range(1, 4) {
+                        let k = loop {
+                            let k = rng.pick(&QUERY_KINDS);
+                            if native || k != "custom" {
+                                break k;
+                            }
+                        };
+                        let it = format!("{} {}", k, rng.pick(&PAYLOADS));
+                        items.push(it.clone());
+                        if rng.chance(1, 2) {
+                            items.push(it);
+                        }
+                    }
+                    out.push(format!("query-sub {} {}", if native { "native" } else { "lifted" }, items.join(" ")));
+                }
                 8 => out.push(format!("sudo {} {}", rng.pick(&SUDO_KINDS), rng.pick(&PAYLOADS))),
                 _ => out.push("storage-dump".into()),
             }
